@@ -161,6 +161,15 @@ func judge(c *lib.Ctx, idx int, sc scenario, childCheck bool) (string, []lib.Pro
 		bad("same-process-rerun-differs:"+sc.name, "two runs in one process under the same map order differ (%s vs %s)", base.Sum, again.Sum)
 		return "nondeterministic", probs
 	}
+	// a rerun as a user can do it: only the public ID-generator reset in
+	// between, the tracing package's process-global side tables as the previous
+	// run left them
+	simx.KeepRegistries = true
+	third := observe(sc.run)
+	simx.KeepRegistries = false
+	if third.Sum != base.Sum {
+		bad("same-process-rerun-differs-after-public-reset:"+sc.name, "a rerun in the same process after timing.ResetIDGenerator() only (tracing side tables left as the previous run left them) differs: %s vs %s (events %d vs %d, messages %d vs %d)", third.Sum, base.Sum, third.Events, base.Events, third.Msgs, base.Msgs)
+	}
 	if base.Gos != 0 {
 		bad("goroutine-spawned:"+sc.name, "a serial simulation executed %d go statements", base.Gos)
 	}
